@@ -40,6 +40,7 @@ func runC17(l *core.Ledger) {
 	l.Rule("C17-B7", "the custom return type of a method is a message of the package being generated: customOut does not give it the import path of the reply type")
 	l.Rule("C17-B8", "an option is in effect when it is set to true: the option helpers consult the value of the extension, not only its presence")
 	l.Rule("C17-B9", "wrapper types (Async<T>, Correctable<T>) are distinct for distinct return types, also when two return types of different Go packages have the same name")
+	l.Rule("C17-B10", "field() - through which every derived type and field name is made - selects the part of the Go type name after the package qualifier and does not rewrite it: derived names are distinct for distinct type names of one package")
 	l.Rule("C17-U1", "every committed *_gorums.pb.go equals the expansion of the current templates for its descriptor (token streams per declaration, comments aside)")
 	l.Rule("C17-U1b", "the reference funcMap agrees with the generator's: same keys, same option dependencies; hasMethodOption / hasAllMethodOption / countMethodOptions have their defining loop shape")
 	l.Rule("C17-U2", "declarations of the staticCode literal == non-import declarations of the dev package's static files; pkgIdentMap values are exported members of their packages")
